@@ -53,6 +53,10 @@ def cases(tier):
                     for r0 in (1, 'max'):
                         for xdt in ('same', 'other'):
                             yield {'d': d, 'form': form, 'dims': list(dims), 'inter': inter, 'fam': 'lastc', 'r0': r0, 'h': 0.1, 'nz': 0, 'xdt': xdt}
+                    if inter == 'r2' and d >= 3:
+                        for fam in ('real', 'complex'):
+                            for r0 in (1, 'max'):
+                                yield {'d': d, 'form': form, 'dims': list(dims), 'inter': inter, 'fam': fam, 'r0': r0, 'h': 0.1, 'nz': 0, 'struct': 'mixedrank'}
                     if len(set(dims)) == 1:
                         # structured site dependence: two of the three component lists uniform (the same array object in every
                         # slot), the third one site dependent
@@ -98,6 +102,12 @@ def gen_components(rng, dims, form, inter, fam, struct=None):
         L.append(0.7 * Li); M.append(Mi); I.append(np.eye(n))
     if lastc:
         S[-1] = S[-1] + 1j * rng.standard_normal(S[-1].shape)
+    if struct == 'mixedrank':
+        # site-dependent number of interaction terms: 1 on even bonds (the first one included), 2 on odd bonds
+        for i in range(d - 1):
+            ri = 1 if i % 2 == 0 else 2
+            L[i] = L[i][:, :, :ri]; M[i + 1] = M[i + 1][:ri]
+        struct = None
     if struct is not None:
         if struct != 'varyS':
             S = [S[0]] * d
